@@ -262,7 +262,7 @@ func parsePluginFromDir(ctx context.Context, path string) (string, string, error
 			return err
 		}
 		// skip sub-directories
-		if d.IsDir() && d.Name() != filepath.Base(path) {
+		if d.IsDir() && p != path {
 			return fs.SkipDir
 		}
 		info, err := d.Info()
